@@ -218,6 +218,16 @@ def make_result_check(prop, terms, extra_kinds=(), oracle_keys=(), seq=None, wit
             r1, mism = k1_part(rep, tier, seed)
             if mism:
                 corr_failure(rep, "K1", mism, [], str)
+        if prop == "C02" and res["known"].get("C02_pre_seq_index", 0) > 0:
+            for f in vlib.load_findings()["findings"]:
+                if f["property"] == "C02" and f["key"] == "pre-advanced-con-iter.sequential.index":
+                    rep.known.append("%s [%d runs, e.g. %s]" % (f["what"], res["known"]["C02_pre_seq_index"],
+                                                              res["known"].get("C02_pre_seq_index_sample", "")[:240]))
+                    break
+            else:
+                rep.violation("sequential *_with_index over a pre-advanced concurrent iterator reports a position that is not the one in the original source, and the known-findings file does not list it",
+                              {"failing_input_found": True, "correspondence": "K3",
+                               "input": res["known"].get("C02_pre_seq_index_sample", "")})
         if prop == "C01" and res["known"].get("C01_pre_map_col", 0) > 0:
             for f in vlib.load_findings()["findings"]:
                 if f["property"] == "C01" and f["key"] == "pre-advanced-con-iter.map.collect":
@@ -308,8 +318,20 @@ def check_C16(rep, tier, seed):
     for site in fails[:3]:
         rep.violation("eager site %s is not in the known-findings list" % site,
                       {"failing_input_found": True, "correspondence": "K3/sites", "input": {"site": site}})
+    # source elements consumed while building; the terminal's run under the parameters last set
+    direct = 0
+    for o in res["oracle"].get("C16", [])[:3]:
+        direct += 1
+        rep.violation("oracle " + o["what"], {"failing_input_found": True, "correspondence": "K3",
+                                              "input": {"case": o["case"], "observed": o["observed"]}})
+    for kind, m in k3_select(res, ["runner", "consumed"])[:3]:
+        direct += 1
+        what = ("the terminal's run does not use Runner::new of the parameters last set" if kind == "runner"
+                else "source elements consumed while the computation was being built differ from the model's")
+        rep.violation(what, {"failing_input_found": True, "correspondence": "K3/" + kind,
+                             "input": {"case": m["case"], "implementation": m["impl"], "specification(model)": m["model"]}})
     other = [m for _, m in k3_select(res, ["clog"]) if not (m["model"] == "-" and m["impl"] != "-")]
-    if other and not bad and not fails:
+    if other and not bad and not fails and not direct:
         corr_failure(rep, "K3(clog)", other, [], str)
 
 
